@@ -189,8 +189,9 @@ def run_case(case, explicit=False):
         if ss.cooperate(sim, sim.now + bound, peer_hold=90) is None:
             out.append(('start:no-automatic-recovery:%s' % sim.state, 'after manual-start a dropped session does not come back'))
         else:
-            # manual start while Established changes nothing
+            # manual start while Established changes nothing - not now and not later
             mark = sim.mark()
+            timers0 = sorted((c_.name, round(c_.time, 6)) for c_ in r.pending())
             code, body = sim.manual_start()
             r.settle(fire_due=True)
             tr = [x for x in sim.since(mark) if x[1] in ('write', 'connectTCP', 'loseConnection')]
@@ -198,6 +199,23 @@ def run_case(case, explicit=False):
                 out.append(('start-while-established:effect', 'manual-start in ESTABLISHED caused %r, state %s' % (tr, sim.state)))
             if not body or body.get('status') is not False:
                 out.append(('start-while-established:reply', 'manual-start in ESTABLISHED answered %r' % (body,)))
+            timers1 = sorted((c_.name, round(c_.time, 6)) for c_ in r.pending())
+            if timers1 != timers0:
+                out.append(('start-while-established:timers', 'pending timers %r before, %r after' % (timers0, timers1)))
+            # the session goes on with the timers it negotiated (peer proposed 90 s): KEEPALIVE every 30 s, alive after 3 x 90 s
+            H = min(cfg['hold'], 90)
+            if H and not out:
+                live = ss.live_connectors(sim)
+                t_begin = sim.now
+                okay = ss.stay_up(sim, H)
+                kas = [t for t, k, cid, p in sim.since(mark) if k == 'write' and len(p) >= 19 and p[18] == 4]
+                if not okay:
+                    out.append(('start-while-established:session-ends-later', 'state %s within 3 hold times after a manual-start in ESTABLISHED'
+                                % sim.state))
+                else:
+                    gaps = [b - a for a, b in zip([t_begin] + kas, kas + [sim.now])]
+                    if not kas or max(gaps) > H / 3.0 + 1e-6:
+                        out.append(('start-while-established:keepalive-cadence', 'KEEPALIVEs at %r after the manual-start (H=%s)' % (kas[:12], H)))
     return d, out, {'cfg': cfg, 'prefix': prefix, 'cont': cont, 'nontrivial': nontrivial, 'stopped_in': state_before if not preboot else 'PREBOOT',
                     'pending_attempt': pend}
 
